@@ -339,10 +339,20 @@ func c14Starve(r *zsim.Run) {
 	bes := make([]*c14Backend, n)
 	for i := range bes {
 		bes[i] = &c14Backend{latency: zsim.Pick(o, 5*time.Millisecond, time.Millisecond, 15*time.Millisecond, 200*time.Millisecond), mode: zsim.Pick(o, 0, 0, 1)}
+		if n >= 5 && bes[i].latency > 40*time.Millisecond {
+			// (a slow backend makes the pick rate fall below what the bound assumes: with many backends nearly
+			// every run would have one and go unchecked)
+			bes[i].latency = 25 * time.Millisecond
+		}
 	}
 	r.NonTrivial()
 	r.Logf("starve n=%d backends=%v", n, c14Desc(bes))
+	// 50 picks a second; four times as many with five or more backends, where an unhealthy one survives the
+	// pair re-draws only (2/n)^3 of the time and must still be seen about once a second
 	callers := 2
+	if n >= 5 {
+		callers = 8
+	}
 	doneCnt := 0
 	for c := 0; c < callers; c++ {
 		who := fmt.Sprintf("s%d", c)
@@ -380,13 +390,11 @@ func c14Starve(r *zsim.Run) {
 			// up in the random pair 2/n of the time (>= 12 times a second here)
 			// and is then picked unless it was picked within the last second; an
 			// unhealthy one only survives the three pair re-draws (2/n)^3 of the
-			// time, so for it the bound is 10s and only for n <= 5, where missing
-			// it has a probability below 1e-12 per gap.
+			// time, so for it the bound is 10s: missing it that long has a
+			// probability below 1e-12 per gap at these pick rates.
 			bound := 3 * time.Second
 			if b.mode != 0 {
-				if n > 5 {
-					continue
-				}
+				// n = 8 at 200 picks/s: in the final pair 3 times a second, a 10s gap has probability e^-30
 				bound = 10 * time.Second
 			}
 			if b.maxGap > bound || r.Now()-b.lastPickAt > bound {
